@@ -70,6 +70,13 @@ types.append(record("Base2", [field("b1", prim("string")), field("b2", prim("str
 types.append(record("Mid2", [field("m1", prim("string"))], includes=["Base2"]))
 types.append(record("Alpha", [field("a1", prim("string"))], includes=["Mid2"]))
 types.append(record("Beta", [field("p1", prim("string")), field("p2", prim("string"), True)], includes=["Mid2"]))
+# include chain of depth two in which only the deepest record declares defaults
+types.append(record("Base3", [field("bd", prim("int32"), default="5"), field("bs", arr(prim("string")), default=json.dumps(["x"]))]))
+types.append(record("Mid3", [field("m", prim("string"), True)], includes=["Base3"]))
+types.append(record("Top3", [field("own", prim("string"), default=json.dumps("o"))], includes=["Mid3"]))
+types.append(record("Plain3", [field("p", prim("string"), True)], includes=["Mid3"]))
+# a record with more required fields than a machine word has bits
+types.append(record("Wide", [field("f%02d" % i, prim("string")) for i in range(66)]))
 types.append(record("KParams", [field("x", prim("int32"), True)]))
 ck = named("Ck"); ck["Key"] = {"name": "Inner", "namespace": NS}; ck["Params"] = {"name": "KParams", "namespace": NS}
 types.append({"complexKey": ck})
